@@ -1085,17 +1085,18 @@ DANE policy neither authenticates nor refuses on TLSA grounds: the outcome is ne
 temporary refusal of a failed lookup — for every transport, every answer, every TLS state. -/
 theorem C13_nonloopback_resolver_never_dane (E : Env) (T : Transport) (W : List Srv)
     (hnl : ∀ s ∈ W, s.loopback = false) (hs : Bool) (chain : List Cert) (r : CRes)
-    (h : resolverConn E T W hs chain = some r) :
+    (h : resolverConn E T W hs chain = r) :
     r = .ret .none none ∨ r = .ret .none (some .tempLookup) := by
   unfold resolverConn at h
   cases hD : resolverDns T W with
-  | none => rw [hD] at h; cases h
+  | none =>
+    rw [hD] at h; subst h
+    exact Or.inr (by simp [prepareConn, checkConn, DiscErr.isNotFound])
   | some D =>
     rw [hD] at h
-    cases h
+    subst h
     have hu := C13_nonloopback_rrset_never_authenticated T W hnl D hD
-    show connDecision E true D hs chain = _ ∨ connDecision E true D hs chain = _
-    unfold connDecision
+    show checkConn E true (discoverTLSA D) hs chain = _ ∨ checkConn E true (discoverTLSA D) hs chain = _
     rcases discover_unauthenticated D hu with h0 | ⟨e, he⟩
     · rw [h0]
       simp [checkConn, verifyDANE]
@@ -1185,16 +1186,16 @@ canonical or under the MX name) with whose records `verifyDANE` authenticates th
 every transport: nothing a non-loopback server says, over UDP or TCP, can be that answer. -/
 theorem C13_resolver_authenticated_sound (E : Env) (T : Transport) (W : List Srv) (hs : Bool)
     (chain : List Cert) (err : Option CErr)
-    (h : resolverConn E T W hs chain = some (.ret .authenticated err)) :
+    (h : resolverConn E T W hs chain = .ret .authenticated err) :
     ∃ s ∈ W, s.loopback = true ∧ ∃ m0, (T s.tlsaR = some m0 ∨ T s.tlsaM = some m0) ∧
       m0.rcode = 0 ∧ m0.ad = true ∧ Authenticated (verifyDANE E m0.recs hs chain) := by
   unfold resolverConn at h
   cases hD : resolverDns T W with
-  | none => rw [hD] at h; cases h
+  | none => rw [hD] at h; simp [prepareConn, checkConn, DiscErr.isNotFound] at h
   | some D =>
     rw [hD] at h
     have h' : connDecision E true D hs chain = .ret .authenticated err := by
-      simpa using h
+      simpa [prepareConn, connDecision] using h
     unfold connDecision at h'
     obtain ⟨_, _, recs, hd, hv⟩ := (C13_checkConn_authenticated_iff E true _ hs chain err).mp h'
     have hne : recs ≠ [] := by
@@ -1331,14 +1332,14 @@ theorem C13_resolver_rrset_reaches_decision (E : Env) (T : Transport) (s : Srv) 
     (ha : T s.a = some ma) (ha0 : ma.rcode = 0) (haad : ma.ad = true) (hrn : ma.rname = .same)
     (h6 : T s.aaaa = some m6) (hc : T s.cname = some mc) (hr : T s.tlsaR = some mr)
     (hm : T s.tlsaM = some mm) (hm0 : mm.rcode = 0) (hmad : mm.ad = true) :
-    resolverConn E T [s] hs chain = some (checkConn E true (.ok mm.recs) hs chain) := by
+    resolverConn E T [s] hs chain = checkConn E true (.ok mm.recs) hs chain := by
   have hne : (ma.rcode != 0) = false := by simp [ha0]
   have hme : (mm.rcode != 0) = false := by simp [hm0]
   simp only [resolverConn, resolverDns, ask, exchange, List.map, exchangeLoop, ha, h6, hc, hr, hm,
     hne, hme]
   simp only [Bool.false_eq_true, ↓reduceIte, checkCNAMEAD, hrn]
   cases h6c : (m6.rcode != 0) <;> cases hcc : (mc.rcode != 0) <;> cases hrc : (mr.rcode != 0) <;>
-    simp [authLookupCNAME, authLookupTLSA, connDecision, discoverTLSA, discoverSecure,
+    simp [authLookupCNAME, authLookupTLSA, prepareConn, discoverTLSA, discoverSecure,
       discoverAtMX, haad, hlb, hmad]
 
 /-! ## `connect`: the reference identifier of the DANE-TA validation is the MX host name
@@ -1405,7 +1406,7 @@ theorem connectLoop_some (srv : Nat → Attempt) (k i : Nat) (c : TlsCfg) (level
       else if !(srv i).starttls then .ok .none .plain
       else if !(srv i).starttlsCmdOk then .fail
       else match (srv i).hello c with
-        | .ok => .ok level ⟨true, c.serverName, (srv i).chain⟩
+        | .ok => .ok level ⟨true, c.serverName, (srv i).chain, !c.insecure⟩
         | .verifyErr =>
           if level == .authenticated then
             connectLoop srv k (i + 1) (some { c with insecure := true }) .encrypted
@@ -1504,7 +1505,7 @@ configuration named for the MX host, on the first attempt -/
 theorem C13_connect_authenticated_sound (host : Name) (base : Option TlsCfg) (srv : Nat → Attempt)
     (st : ConnState) (h : connect host base srv = .ok .authenticated st) :
     ∃ b, base = some b ∧ (srv 0).hello { b with serverName := some host } = .ok ∧
-      st = ⟨true, some host, (srv 0).chain⟩ := by
+      st = ⟨true, some host, (srv 0).chain, !b.insecure⟩ := by
   cases base with
   | none =>
     simp only [connect, Option.map] at h
@@ -1568,6 +1569,138 @@ theorem C13_attempt_plaintext_refused (EN : EnvN) (host : Name) (base : Option T
   simp [policyStep, ConnState.plain, checkConn, C13_no_tls_refused _ recs [] hne]
 
 
+
+/-! ## A crashed discovery is a failed discovery; what crypto/tls verified is not an input
+
+`PrepareConn` runs `discoverTLSA` in a goroutine whose deferred handler recovers a panic. The future
+`CheckConn` waits for is completed only by a discovery that RETURNED; after a crash the wait ends with
+the delivery's context and its error — never with "no records, no error". -/
+
+/-- the future holds records only if a discovery returned exactly them -/
+theorem C13_prepareConn_ok_iff (d : Option (Except DiscErr (List Rec))) (recs : List Rec) :
+    prepareConn d = .ok recs ↔ d = some (.ok recs) := by
+  cases d with
+  | none => simp [prepareConn]
+  | some r => simp [prepareConn]
+
+/-- **C13 (a crashed discovery fails closed).** Whatever the TLS state and the certificates: when
+the lookup goroutine panicked, `CheckConn` refuses the connection with a temporary error. -/
+theorem C13_crashed_discovery_fails_closed (E : Env) (hs : Bool) (chain : List Cert) :
+    checkConn E true (prepareConn none) hs chain = .ret .none (some .tempLookup) := by
+  simp [prepareConn, checkConn, DiscErr.isNotFound]
+
+theorem C13_conn_crash_fails_closed (E : Env) (D : Dns) (hs : Bool) (chain : List Cert) :
+    connDecisionC E true true D hs chain = .ret .none (some .tempLookup) :=
+  C13_crashed_discovery_fails_closed E hs chain
+
+/-- without a crash `PrepareConn` + `CheckConn` is `connDecision` -/
+theorem C13_connC_no_crash (E : Env) (hr : Bool) (D : Dns) (hs : Bool) (chain : List Cert) :
+    connDecisionC E hr false D hs chain = connDecision E hr D hs chain := rfl
+
+/-- **C13 (only a completed discovery lets a connection through).** If `CheckConn` returns without an
+error, the lookup goroutine returned — with "name does not exist", or with records `verifyDANE` does
+not refuse this connection for. A crash is never read as "no records". -/
+theorem C13_conn_accepts_only_completed_discovery (E : Env)
+    (d : Option (Except DiscErr (List Rec))) (hs : Bool) (chain : List Cert) (l : Level)
+    (h : checkConn E true (prepareConn d) hs chain = .ret l none) :
+    ∃ r, d = some r ∧
+      (r = .error (.lookup .notFound) ∨ ∃ recs, r = .ok recs ∧ ¬ Refused (verifyDANE E recs hs chain)) := by
+  cases d with
+  | none => rw [C13_crashed_discovery_fails_closed] at h; cases h
+  | some r =>
+    refine ⟨r, rfl, ?_⟩
+    cases r with
+    | error e =>
+      left
+      cases e with
+      | lookup le =>
+        cases le with
+        | notFound => rfl
+        | other => simp [prepareConn, checkConn, DiscErr.isNotFound] at h
+      | noAddress => simp [prepareConn, checkConn, DiscErr.isNotFound] at h
+      | incomplete => simp [prepareConn, checkConn, DiscErr.isNotFound] at h
+    | ok recs =>
+      right
+      refine ⟨recs, rfl, ?_⟩
+      rintro ⟨o, e, hv⟩
+      simp [prepareConn, checkConn, hv] at h
+
+/-- a resolver without servers: every lookup dereferences a missing response inside the lookup
+goroutine — temporary refusal, for every transport -/
+theorem C13_resolver_no_servers_fails_closed (E : Env) (T : Transport) (hs : Bool) (chain : List Cert) :
+    resolverConn E T [] hs chain = .ret .none (some .tempLookup) := by
+  have : resolverDns T [] = none := by
+    simp [resolverDns, ask, exchange, exchangeLoop, checkCNAMEAD]
+  simp [resolverConn, this, prepareConn, checkConn, DiscErr.isNotFound]
+
+/-- **C13 (one MX, crashed discovery).** Whatever connection `connect` leaves — plaintext, encrypted,
+authenticated by X.509 — a crashed TLSA discovery gets the MX refused with a temporary error. -/
+theorem C13_attempt_crashed_discovery_refused (EN : EnvN) (host : Name) (base : Option TlsCfg)
+    (srv : Nat → Attempt) (lv : TLSLevel) (st : ConnState) (h : connect host base srv = .ok lv st) :
+    attemptMX EN host base srv true (prepareConn none) = .refused .tempLookup := by
+  simp [attemptMX, h, policyStep, C13_crashed_discovery_fails_closed]
+
+/-- `VerifiedChains` is not an input of the decision -/
+theorem C13_pkix_result_not_an_input (E : Env) (hr : Bool) (fut : Except DiscErr (List Rec))
+    (lv : TLSLevel) (st : ConnState) (b : Bool) :
+    policyStep E hr fut lv { st with verified := b } = policyStep E hr fut lv st := rfl
+
+/-- the state reports verified chains only for a handshake that completed under a configuration with
+certificate verification switched on -/
+theorem connectLoop_verified (srv : Nat → Attempt) (fuel : Nat) :
+    ∀ (i : Nat) (cfg : Option TlsCfg) (level lv : TLSLevel) (st : ConnState),
+      connectLoop srv fuel i cfg level = .ok lv st → st.verified = true →
+      st.hs = true ∧ ∃ j c, (srv j).hello c = .ok ∧ c.insecure = false ∧ st.chain = (srv j).chain := by
+  induction fuel with
+  | zero => intro i cfg level lv st h; simp [connectLoop] at h
+  | succ n ih =>
+    intro i cfg level lv st h hv
+    cases cfg with
+    | none =>
+      rw [connectLoop_cfg_none] at h
+      split at h
+      · cases h; cases hv
+      · cases h
+    | some c =>
+      rw [connectLoop_some] at h
+      split at h
+      · cases h
+      · split at h
+        · cases h; cases hv
+        · split at h
+          · cases h
+          · split at h
+            · rename_i hh
+              cases h
+              exact ⟨rfl, i, c, hh, by simpa using hv, rfl⟩
+            · split at h
+              · exact ih _ _ _ _ _ h hv
+              · exact ih _ _ _ _ _ h hv
+            · exact ih _ _ _ _ _ h hv
+
+theorem C13_connect_verified_sound (host : Name) (base : Option TlsCfg) (srv : Nat → Attempt)
+    (lv : TLSLevel) (st : ConnState) (h : connect host base srv = .ok lv st)
+    (hv : st.verified = true) :
+    st.hs = true ∧ ∃ j c, (srv j).hello c = .ok ∧ c.insecure = false ∧ st.chain = (srv j).chain :=
+  connectLoop_verified srv 3 0 _ .authenticated lv st h hv
+
+/-- **C13 (ordinary verification does not stand in for the anchor).** On a connection with a
+completed handshake — `lv` may be "authenticated": crypto/tls verified the chain against the client's
+CA store, `VerifiedChains` is set — usable records that match nothing get the MX refused: no DANE-EE
+record matches the server certificate and the certificate does not verify FOR `host` against the CA
+certificates of the presented chain that usable DANE-TA records assert (`mem_rootAdds`). A pinned CA
+certificate that is merely PRESENT in the chain (a stray element the leaf does not chain to) is an
+asserted anchor with no path to it. -/
+theorem C13_attempt_mismatch_refused_even_if_pkix (EN : EnvN) (host : Name) (base : Option TlsCfg)
+    (srv : Nat → Attempt) (recs : List Rec) (lv : TLSLevel) (leaf : Cert) (rest : List Cert)
+    (verified : Bool)
+    (h : connect host base srv = .ok lv ⟨true, some host, leaf :: rest, verified⟩)
+    (hu : ∃ r ∈ recs, Usable r)
+    (hm : ¬ (EEMatch (EN.forName (some host)) recs leaf ∨
+            TAVerifies (EN.forName (some host)) recs (leaf :: rest) leaf)) :
+    attemptMX EN host base srv true (.ok recs) = .refused (.dane .noMatch) := by
+  obtain ⟨_, _, _, _, s5⟩ := verifyDANE_spec (EN.forName (some host)) recs true leaf rest
+  simp [attemptMX, h, policyStep, checkConn, s5 rfl hu hm]
 
 /-! ## T1: facts regenerated from the current `dane.go` / `security.go` -/
 
@@ -1765,16 +1898,16 @@ def exSrv (loopback : Bool) : Srv where
   tlsaR := ⟨some ⟨3, false, false, .empty, []⟩, none⟩
   tlsaM := ⟨some ⟨0, true, false, .empty, [⟨3, 1, 1, 0, 0, 32⟩]⟩, none⟩
 
-example : resolverConn exEnv udpOnly [exSrv true] true [0, 1, 2] = some (.ret .authenticated none) := by
+example : resolverConn exEnv udpOnly [exSrv true] true [0, 1, 2] = .ret .authenticated none := by
   decide
 /-- the same answers from a resolver that is not on loopback: nothing is authenticated -/
-example : resolverConn exEnv udpOnly [exSrv false] true [0, 1, 2] = some (.ret .none none) := by decide
+example : resolverConn exEnv udpOnly [exSrv false] true [0, 1, 2] = .ret .none none := by decide
 /-- a failing non-loopback server first, the loopback one second: its AD flags count -/
 example : resolverConn exEnv udpOnly
     [{ exSrv false with a := ⟨some ⟨2, true, false, .same, []⟩, none⟩,
                         tlsaM := ⟨some ⟨2, true, false, .empty, []⟩, none⟩,
                         tlsaR := ⟨some ⟨2, true, false, .empty, []⟩, none⟩ }, exSrv true]
-    true [0, 1, 2] = some (.ret .authenticated none) := by decide
+    true [0, 1, 2] = .ret .authenticated none := by decide
 /-- truncated UDP answers with the complete, AD-flagged answers over TCP, and a transport that falls
 back to TCP: still nothing from a non-loopback server is authenticated (instance of
 `C13_nonloopback_resolver_never_dane` with a transport other than the tree's) -/
@@ -1791,11 +1924,21 @@ def exSrvTC (loopback : Bool) : Srv where
   tlsaR := ⟨some ⟨3, false, false, .empty, []⟩, some ⟨3, false, false, .empty, []⟩⟩
   tlsaM := ⟨some ⟨0, false, true, .empty, []⟩, some ⟨0, true, false, .empty, [⟨3, 1, 1, 0, 0, 32⟩]⟩⟩
 
-example : resolverConn exEnv tcpFallback [exSrvTC false] true [0, 1, 2] = some (.ret .none none) := by decide
-example : resolverConn exEnv tcpFallback [exSrvTC true] true [0, 1, 2] = some (.ret .authenticated none) := by decide
+example : resolverConn exEnv tcpFallback [exSrvTC false] true [0, 1, 2] = .ret .none none := by decide
+example : resolverConn exEnv tcpFallback [exSrvTC true] true [0, 1, 2] = .ret .authenticated none := by decide
 /-- the tree's transport reads the truncated (empty) A answer: no address, temporary refusal -/
-example : resolverConn exEnv udpOnly [exSrvTC true] true [0, 1, 2] = some (.ret .none (some .tempLookup)) := by decide
+example : resolverConn exEnv udpOnly [exSrvTC true] true [0, 1, 2] = .ret .none (some .tempLookup) := by decide
 example : resolverDns udpOnly [] = none := by decide
+/-- no server configured: the discovery crashes, the connection — authenticated by a matching record
+or not, TLS or plaintext — is refused temporarily -/
+example : resolverConn exEnv udpOnly [] true [0, 1, 2] = .ret .none (some .tempLookup) := by decide
+example : resolverConn exEnv udpOnly [] false [] = .ret .none (some .tempLookup) := by decide
+/-- the same world with and without a crash of the discovery -/
+example : connDecisionC exEnv true false exDns true [0, 1, 2] = .ret .authenticated none := by decide
+example : connDecisionC exEnv true true exDns true [0, 1, 2] = .ret .none (some .tempLookup) := by decide
+example : connDecisionC exEnv true true exDns false [] = .ret .none (some .tempLookup) := by decide
+/-- what the crash must NOT be read as: "no records, no error" lets the plaintext connection through -/
+example : checkConn exEnv true (.ok []) false [] = .ret .none none := by decide
 
 /-! ### malformed association data, connect -/
 
@@ -1821,7 +1964,7 @@ example : verifyDANE exEnvF [⟨3, 1, 1, 0, 0, 31⟩, ⟨2, 0, 1, 2, 0, 32⟩] t
 /-- through the resolver: the wrong-length record is delivered and decides -/
 example : resolverConn exEnvF udpOnly
     [{ exSrv true with tlsaM := ⟨some ⟨0, true, false, .empty, [⟨3, 1, 1, 0, 0, 31⟩]⟩, none⟩ }] true [0, 1, 2] =
-    some (.ret .none (some (.dane .noMatch))) := by decide
+    .ret .none (some (.dane .noMatch)) := by decide
 
 /-- names: 0 = the MX host, 1 = another host. Certificate 5 = a leaf issued for host 1 by the same
 CA as the leaf 0. With an empty reference identifier X.509 checks no name. -/
@@ -1838,7 +1981,7 @@ def exEnvN : EnvN where
 def privCA (chain : List Cert) : Nat → Attempt := fun _ =>
   ⟨true, true, true, fun c => if c.insecure then .ok else .verifyErr, chain⟩
 
-example : connect 0 (some ⟨none, false⟩) (privCA [0, 1, 2]) = .ok .encrypted ⟨true, some 0, [0, 1, 2]⟩ := by
+example : connect 0 (some ⟨none, false⟩) (privCA [0, 1, 2]) = .ok .encrypted ⟨true, some 0, [0, 1, 2], false⟩ := by
   decide
 /-- DANE-TA for the root, leaf issued for the MX host: authenticated on the second handshake -/
 example : attemptMX exEnvN 0 (some ⟨none, false⟩) (privCA [0, 1, 2]) true (.ok [⟨2, 0, 1, 2, 0, 32⟩]) =
@@ -1848,7 +1991,7 @@ example : attemptMX exEnvN 0 (some ⟨none, false⟩) (privCA [5, 1, 2]) true (.
     .refused (.dane .noMatch) := by decide
 /-- what `C13_reference_identifier_is_mx` excludes: on a state without server name the same chain
 would pass -/
-example : policyStep (exEnvN.forName none) true (.ok [⟨2, 0, 1, 2, 0, 32⟩]) .encrypted ⟨true, none, [5, 1, 2]⟩ =
+example : policyStep (exEnvN.forName none) true (.ok [⟨2, 0, 1, 2, 0, 32⟩]) .encrypted ⟨true, none, [5, 1, 2], false⟩ =
     .ok .authenticated := by decide
 /-- a base configuration that names another host does not change the identifier -/
 example : attemptMX exEnvN 0 (some ⟨some 1, false⟩) (privCA [5, 1, 2]) true (.ok [⟨2, 0, 1, 2, 0, 32⟩]) =
@@ -1864,6 +2007,31 @@ example : attemptMX exEnvN 0 (some ⟨none, false⟩) (fun _ => ⟨true, true, t
 /-- STARTTLS command refused: no fall-back, the MX is given up -/
 example : attemptMX exEnvN 0 (some ⟨none, false⟩) (fun _ => ⟨true, true, false, fun _ => .ok, [0]⟩) true
     (.ok []) = .connErr := by decide
+
+/-- certificate 7 = a CA certificate of ANOTHER hierarchy; everything else as `exEnvN` -/
+def exEnvS : EnvN := { exEnvN with isCA := fun c => c == 1 || c == 2 || c == 7 }
+
+/-- a peer whose chain passes the client's ordinary verification -/
+def pkixPeer (chain : List Cert) : Nat → Attempt := fun _ => ⟨true, true, true, fun _ => .ok, chain⟩
+
+/-- the chain passes ordinary verification (level authenticated, verified chains reported) and carries
+the stray CA certificate 7; the RRset pins 7: an asserted anchor the leaf does not chain to — refused
+(hypotheses of `C13_attempt_mismatch_refused_even_if_pkix`) -/
+example : connect 0 (some ⟨none, false⟩) (pkixPeer [0, 1, 7]) = .ok .authenticated ⟨true, some 0, [0, 1, 7], true⟩ := by
+  decide
+example : attemptMX exEnvS 0 (some ⟨none, false⟩) (pkixPeer [0, 1, 7]) true (.ok [⟨2, 0, 1, 7, 0, 32⟩]) =
+    .refused (.dane .noMatch) := by decide
+example : ¬ (EEMatch (exEnvS.forName (some 0)) [⟨2, 0, 1, 7, 0, 32⟩] 0 ∨
+    TAVerifies (exEnvS.forName (some 0)) [⟨2, 0, 1, 7, 0, 32⟩] [0, 1, 7] 0) := by
+  rintro (⟨r, hr, _, h3, _⟩ | ⟨_, hv⟩)
+  · simp at hr; subst hr; cases h3
+  · revert hv; decide
+/-- the pin on the CA that did issue the leaf authenticates, on the same connection -/
+example : attemptMX exEnvS 0 (some ⟨none, false⟩) (pkixPeer [0, 1, 7]) true (.ok [⟨2, 0, 1, 1, 0, 32⟩]) =
+    .ok .authenticated := by decide
+/-- a crashed discovery: refused temporarily even on the X.509-authenticated connection -/
+example : attemptMX exEnvS 0 (some ⟨none, false⟩) (pkixPeer [0, 1]) true (prepareConn none) =
+    .refused .tempLookup := by decide
 
 end Examples
 
